@@ -18,6 +18,27 @@ package dawn
 // arrives in the middle of every kind of operand.  Such a stamp is first decoded in process exactly as function.load does,
 // from a guarded reader (kind stamp-b64-inprocess: error | hang | panic | nilnil | value-from-failed-source), then (kind
 // stamp-b64) loaded and built in the subprocess.
+//
+// Record STATES.  A record is not always the record of a finished build: before a target's body runs, the record on disk is
+// the previous one with the re-run marker set ("rerun": true), and it stays so when the process dies or the body fails.  The
+// marker is the one field whose absence means "up to date", so a loader that drops it (a truncated or re-typed field that is
+// skipped rather than reported) turns a target that must run again into one that is silently up to date.  Every corruption
+// family is therefore applied to both states of every record: "clean" and "marked" (kinds marked-*; the marked record is the
+// clean record as saveTargetInfo writes it with the marker set; uncorrupted, it must make the target run: kind marked-none).
+// Up to date is legitimate only when an independent strict decoding of the corrupted bytes (c15recordRef: encoding/json,
+// every error is an error) is a record with the marker clear, the current stamp and the current dependency stamps.
+//
+// Corruption families beyond single bytes: "structure" (every byte outside the interior of the long strings deleted /
+// replaced by JSON punctuation and literals' letters), "retype" (the file stays well-formed JSON, but a field's value changes
+// its JSON type: every field x every kind of JSON value, dependency entries, duplicated / re-cased / unknown keys, the record
+// wrapped), "multi" (2-4 substitutions, bursts, duplicated and removed blocks).
+//
+// Project SHAPES and load SCHEDULES.  A record is read while its module is being loaded, concurrently with the project's other
+// modules; a failed read must be reported whatever the others are doing.  Project "multi" has four packages and a shared
+// module; the record of one target per package is corrupted (a menu of load-failing and benign corruptions) and the project
+// is loaded under three schedules enforced through the module.exec / module.done observation points: free, "first" (the
+// victim's module runs to its end -- and fails -- before any other package's module starts executing) and "last" (it starts
+// only after all the others have finished).  A load that does not return is a hang.
 // Output ($VERIF_OUT): record \t <file> \t <corruption kind> \t <detail> \t <class>
 //                      ORACLE \t record-<class> \t <file> \t <kind> \t <detail> \t <hex of the corrupted record>
 
@@ -41,6 +62,7 @@ import (
 	"testing"
 	"time"
 
+	"github.com/pgavlin/dawn/internal/verifhook"
 	"github.com/pgavlin/dawn/label"
 	"github.com/pgavlin/dawn/pickle"
 	"go.starlark.net/starlark"
@@ -67,6 +89,103 @@ var c15RichBuildFile = strings.Replace(c15BuildFile, `K = {"x": [1, 2, 3], "y": 
      "bytes": b"\x00\xff raw", "long": "0123456789abcdef" * 20, "ints": (255, 256, 65535, 65536, -1, 2147483647, 2147483648),
      "flags": (True, False, None), 300: 70000}`, 1)
 
+// c15MultiFiles: four packages (one nested) and a module shared by three of them.
+var c15MultiFiles = map[string]string{
+	"lib/defs.dawn": "def greet(n):\n    return \"hello \" + n\n",
+	"BUILD.dawn": `load("//lib:defs.dawn", "greet")
+
+@target()
+def a():
+    print(greet("a"))
+
+@target(deps=[":a", "//p1:t1", "//p1/q:t", "//p2:t2"], default=True)
+def top():
+    print("run top")
+`,
+	"p1/BUILD.dawn": `load("//lib:defs.dawn", "greet")
+
+@target()
+def t0():
+    print(greet("p1 t0"))
+
+@target(deps=[":t0"])
+def t1():
+    print(greet("p1 t1"))
+`,
+	"p1/q/BUILD.dawn": `Q = {"k": (1, 2.5, "q")}
+
+@target()
+def t():
+    print("q t", Q)
+
+@target(deps=[":t"])
+def u():
+    print("q u")
+`,
+	"p2/BUILD.dawn": `load("//lib:defs.dawn", "greet")
+
+@target(deps=["//p1:t0"])
+def t2():
+    print(greet("p2 t2"))
+
+@target()
+def t3():
+    print("p2 t3")
+`,
+}
+
+// c15schedule enforces a load schedule ("first|<module>|<n>" or "last|<module>|<n>", n = number of BUILD.dawn modules)
+// through the observation points of the module loader.  Only package modules (BUILD.dawn) are held; a module that is
+// load()ed runs freely, so that holding never blocks the module it is waiting for.
+func c15schedule(spec string) {
+	parts := strings.Split(spec, "|")
+	if len(parts) != 3 {
+		return
+	}
+	mode, victim := parts[0], parts[1]
+	n, _ := strconv.Atoi(parts[2])
+	var mu sync.Mutex
+	victimDone, othersDone := make(chan struct{}), make(chan struct{})
+	var vOnce, oOnce sync.Once
+	others := 0
+	isPkg := func(l string) bool { return strings.HasSuffix(l, "BUILD.dawn") }
+	hold := func(ch chan struct{}, who string) {
+		select {
+		case <-ch:
+		case <-time.After(5 * time.Second):
+			fmt.Printf("C15CHILD\tSCHED\tfallback %s\n", who)
+		}
+	}
+	verifhook.SetHandler(func(point string, args ...any) {
+		if len(args) == 0 {
+			return
+		}
+		l, ok := args[0].(string)
+		if !ok || !isPkg(l) {
+			return
+		}
+		switch point {
+		case "module.exec":
+			if mode == "first" && l != victim {
+				hold(victimDone, l)
+			} else if mode == "last" && l == victim {
+				hold(othersDone, l)
+			}
+		case "module.done":
+			if l == victim {
+				vOnce.Do(func() { close(victimDone) })
+				return
+			}
+			mu.Lock()
+			others++
+			if others >= n-1 {
+				oOnce.Do(func() { close(othersDone) })
+			}
+			mu.Unlock()
+		}
+	})
+}
+
 // TestVerifC15RecordChild is the subprocess body: load and build, print what happened.
 func TestVerifC15RecordChild(t *testing.T) {
 	dir := os.Getenv("VERIF_C15_CHILD_DIR")
@@ -87,6 +206,9 @@ func TestVerifC15RecordChild(t *testing.T) {
 			}
 		}
 	}()
+	if spec := os.Getenv("VERIF_C15_SCHED"); spec != "" {
+		c15schedule(spec)
+	}
 	ev := &testEvents{}
 	report := func(status string) {
 		for _, e := range ev.events {
@@ -146,20 +268,30 @@ func c15encodeStamp(v starlark.Value) string {
 	return buf.String()
 }
 
-// c15sameRecord: is the corrupted record semantically the true record, as far as the up-to-date decision of its
-// own target is concerned?
+// c15recordRef is the harness's own statement of the record format (the field names are the on-disk format), decoded
+// strictly: the reference for what a byte string says as a record does not depend on the loader under test.
+type c15recordRef struct {
+	Doc          string            `json:"doc,omitempty"`
+	Dependencies map[string]string `json:"dependencies,omitempty"`
+	Data         string            `json:"stamp,omitempty"`
+	Run          string            `json:"run,omitempty"`
+	Rerun        bool              `json:"rerun,omitempty"`
+}
+
+// c15sameRecord: is the corrupted record semantically the true (clean, current) record, as far as the up-to-date decision
+// of its own target is concerned?
 func c15sameRecord(trueRec, gotRec []byte) (same bool, why string) {
 	defer func() {
 		if r := recover(); r != nil {
 			same, why = false, "decoding the corrupted record panics"
 		}
 	}()
-	var want, got targetInfo
+	var want, got c15recordRef
 	if err := json.NewDecoder(bytes.NewReader(trueRec)).Decode(&want); err != nil {
 		return false, "true record unreadable"
 	}
 	if err := json.NewDecoder(bytes.NewReader(gotRec)).Decode(&got); err != nil {
-		return false, "not JSON"
+		return false, "not a record: " + err.Error()
 	}
 	if got.Rerun {
 		return false, "rerun set"
@@ -179,6 +311,21 @@ func c15sameRecord(trueRec, gotRec []byte) (same bool, why string) {
 		return false, "stamp bytes differ from the current stamp"
 	}
 	return true, ""
+}
+
+// c15laxOnly: why a byte string that decodes as a record is not, strictly, one record ("" when it is): the file must be
+// exactly one JSON object with the record's keys.
+func c15laxOnly(rec []byte) string {
+	dec := json.NewDecoder(bytes.NewReader(rec))
+	dec.DisallowUnknownFields()
+	var r c15recordRef
+	if err := dec.Decode(&r); err != nil {
+		return "unknown-key"
+	}
+	if _, err := dec.Token(); err != io.EOF {
+		return "trailing-data"
+	}
+	return ""
 }
 
 // ---- the stamp's source: base64 text with a damaged character
@@ -246,6 +393,329 @@ func c15damage(stamp string, i int, c byte) string {
 	return string(b)
 }
 
+// c15structural: the positions of a record that are not in the interior of a long string literal (the stamps): the
+// braces, colons, commas, quotes, keys, literals, short values and the first and last characters of the long strings.
+func c15structural(rec []byte) []int {
+	skip := make([]bool, len(rec))
+	for i := 0; i < len(rec); i++ {
+		if rec[i] != '"' {
+			continue
+		}
+		j := i + 1
+		for j < len(rec) && rec[j] != '"' {
+			if rec[j] == '\\' {
+				j++
+			}
+			j++
+		}
+		if j-i-1 > 24 {
+			for k := i + 5; k < j-4 && k < len(rec); k++ {
+				skip[k] = true
+			}
+		}
+		i = j
+	}
+	var ps []int
+	for i := range rec {
+		if !skip[i] {
+			ps = append(ps, i)
+		}
+	}
+	return ps
+}
+
+var c15recordFields = []string{"doc", "dependencies", "stamp", "run", "rerun"}
+
+// c15build writes a record from raw field values: the known fields in the order the encoder writes them, then the others.
+func c15build(fields map[string]json.RawMessage, extra ...string) []byte {
+	var parts []string
+	seen := map[string]bool{}
+	for _, k := range c15recordFields {
+		if v, ok := fields[k]; ok {
+			parts = append(parts, strconv.Quote(k)+":"+string(v))
+			seen[k] = true
+		}
+	}
+	var rest []string
+	for k := range fields {
+		if !seen[k] {
+			rest = append(rest, k)
+		}
+	}
+	for i := range rest { // sorted
+		for j := i + 1; j < len(rest); j++ {
+			if rest[j] < rest[i] {
+				rest[i], rest[j] = rest[j], rest[i]
+			}
+		}
+	}
+	for _, k := range rest {
+		parts = append(parts, strconv.Quote(k)+":"+string(fields[k]))
+	}
+	parts = append(parts, extra...)
+	return []byte("{" + strings.Join(parts, ",") + "}\n")
+}
+
+// every kind of JSON value, and two spellings of the literals as strings
+var c15jsonKinds = []string{`null`, `true`, `false`, `0`, `1`, `-1.5e3`, `""`, `"ru"`, `"true"`, `[]`, `[true]`, `{}`, `{"a":true}`}
+
+// c15retypes: the record stays well-formed JSON, but a field's value changes its JSON type or a key its spelling.
+func c15retypes(rec []byte, add func(kind, detail string, data []byte)) {
+	var fields map[string]json.RawMessage
+	if err := json.Unmarshal(rec, &fields); err != nil {
+		panic(err)
+	}
+	with := func(k string, v string) map[string]json.RawMessage {
+		m := map[string]json.RawMessage{}
+		for k0, v0 := range fields {
+			m[k0] = v0
+		}
+		m[k] = json.RawMessage(v)
+		return m
+	}
+	for _, k := range c15recordFields {
+		for _, v := range c15jsonKinds {
+			if string(fields[k]) != v {
+				add("retype", k+"="+v, c15build(with(k, v)))
+			}
+		}
+	}
+	if raw, ok := fields["dependencies"]; ok {
+		var deps map[string]json.RawMessage
+		if json.Unmarshal(raw, &deps) == nil {
+			for d := range deps {
+				for _, v := range []string{`null`, `5`, `true`, `["x"]`, `{}`, `""`} {
+					m := map[string]json.RawMessage{}
+					for k0, v0 := range deps {
+						m[k0] = v0
+					}
+					m[d] = json.RawMessage(v)
+					b, _ := json.Marshal(m)
+					add("retype", "dependencies["+d+"]="+v, c15build(with("dependencies", string(b))))
+				}
+			}
+		}
+	}
+	// keys: duplicated (the last one counts), re-cased (the decoder matches keys without regard to case), unknown
+	for _, k := range c15recordFields {
+		cur, ok := fields[k]
+		if !ok {
+			continue
+		}
+		for _, v := range []string{`null`, `false`, `"ru"`, `{}`} {
+			add("retype", "duplicate-key-after:"+k+"="+v, c15build(fields, strconv.Quote(k)+":"+v))
+			add("retype", "duplicate-key-before:"+k+"="+v, c15build(with(k, v), strconv.Quote(k)+":"+string(cur)))
+		}
+		m := with(strings.ToUpper(k), string(cur))
+		delete(m, k)
+		add("retype", "upper-case-key:"+k, c15build(m))
+		m = with("x"+k, string(cur))
+		delete(m, k)
+		add("retype", "renamed-key:"+k, c15build(m))
+	}
+	add("retype", "unknown-field", c15build(with("zz", `{"rerun":true,"stamp":5}`)))
+	body := bytes.TrimSpace(rec)
+	add("retype", "wrapped-in-array", []byte("["+string(body)+"]\n"))
+	add("retype", "wrapped-in-object", []byte(`{"record":`+string(body)+"}\n"))
+	add("retype", "two-records", []byte(string(body)+"\n"+string(body)+"\n"))
+	add("retype", "re-indented", func() []byte {
+		var buf bytes.Buffer
+		json.Indent(&buf, body, "", "\t")
+		return append(buf.Bytes(), '\n')
+	}())
+}
+
+// c15structure: every structural byte deleted, and replaced by JSON punctuation, letters of the literals and controls.
+func c15structure(rec []byte, rng *rand.Rand, thorough bool, add func(kind, detail string, data []byte)) {
+	menu := []byte{'"', ',', ':', '{', '}', '[', ']', ' ', '0', '9', 't', 'f', 'n', 'e', '\\', 0x00, '\n', '-'}
+	off := rng.Intn(len(menu))
+	for n, i := range c15structural(rec) {
+		add("structure", fmt.Sprintf("delete:%d", i), append(append([]byte(nil), rec[:i]...), rec[i+1:]...))
+		var subs []byte
+		if thorough {
+			subs = append(append(subs, menu...), rec[i]^0x20, rec[i]^0x01)
+		} else {
+			subs = []byte{menu[(off+n)%len(menu)], menu[(off+7*n+5)%len(menu)]}
+		}
+		for _, c := range subs {
+			if c != rec[i] {
+				d := append([]byte(nil), rec...)
+				d[i] = c
+				add("structure", fmt.Sprintf("%d:%02x", i, c), d)
+			}
+		}
+	}
+}
+
+// c15multi: corruptions of more than one byte.
+func c15multi(rec []byte, rng *rand.Rand, thorough bool, add func(kind, detail string, data []byte)) {
+	n := 60
+	if thorough {
+		n = 400
+	}
+	st := c15structural(rec)
+	for k := 0; k < n; k++ {
+		d := append([]byte(nil), rec...)
+		detail := ""
+		switch k % 5 {
+		case 0, 1: // 2-4 substitutions, anywhere / at structural positions
+			m := 2 + rng.Intn(3)
+			for x := 0; x < m; x++ {
+				i := rng.Intn(len(d))
+				if k%5 == 1 {
+					i = st[rng.Intn(len(st))]
+				}
+				nb := byte(rng.Intn(256))
+				if x%2 == 0 {
+					nb = "\"{}[],:0tfn e"[rng.Intn(13)]
+				}
+				if nb == d[i] {
+					nb ^= 1
+				}
+				d[i] = nb
+				detail += fmt.Sprintf("%d:%02x ", i, nb)
+			}
+			detail = "substitutions " + strings.TrimSpace(detail)
+		case 2: // a burst overwritten
+			ln := 2 + rng.Intn(7)
+			i := rng.Intn(len(d))
+			if k%2 == 0 {
+				i = st[rng.Intn(len(st))]
+			}
+			fill := []byte{0, ' ', 0xff, '"', 'A'}[rng.Intn(5)]
+			for x := i; x < i+ln && x < len(d); x++ {
+				d[x] = fill
+				if fill == 'A' {
+					d[x] = byte(rng.Intn(256))
+				}
+			}
+			detail = fmt.Sprintf("burst %d+%d:%02x", i, ln, fill)
+		case 3: // a block written twice
+			ln := 1 + rng.Intn(16)
+			i := st[rng.Intn(len(st))]
+			if i+ln > len(d) {
+				ln = len(d) - i
+			}
+			d = append(append(append([]byte(nil), rec[:i+ln]...), rec[i:i+ln]...), rec[i+ln:]...)
+			detail = fmt.Sprintf("block-twice %d+%d", i, ln)
+		case 4: // a block lost
+			ln := 2 + rng.Intn(15)
+			i := st[rng.Intn(len(st))]
+			if i+ln > len(d) {
+				ln = len(d) - i
+			}
+			d = append(append([]byte(nil), rec[:i]...), rec[i+ln:]...)
+			detail = fmt.Sprintf("block-lost %d+%d", i, ln)
+		}
+		if !bytes.Equal(d, rec) {
+			add("multi", detail, d)
+		}
+	}
+}
+
+// c15marked: the record as the build leaves it before it runs the target's body (saveTargetInfo's encoding).
+func c15marked(rec []byte) []byte {
+	var info targetInfo
+	if err := json.Unmarshal(rec, &info); err != nil {
+		panic(err)
+	}
+	info.Rerun = true
+	var buf bytes.Buffer
+	if err := json.NewEncoder(&buf).Encode(&info); err != nil {
+		panic(err)
+	}
+	return buf.Bytes()
+}
+
+// c15markedCorruptions: every family over the marked state of a record.
+func c15markedCorruptions(rec []byte, rng *rand.Rand, thorough bool) []c15corruption {
+	var cs []c15corruption
+	add := func(kind, detail string, data []byte) {
+		cs = append(cs, c15corruption{"marked-" + kind, detail, append([]byte(nil), data...)})
+	}
+	m := c15marked(rec)
+	add("none", "uncorrupted", m)
+	st := map[int]bool{}
+	for _, i := range c15structural(m) {
+		st[i] = true
+	}
+	for i := 0; i < len(m); i++ { // truncations: everywhere outside the long strings, every 8th offset inside
+		if thorough || st[i] || i%8 == 0 {
+			add("truncate", strconv.Itoa(i), m[:i])
+		}
+	}
+	c15structure(m, rng, thorough, add)
+	c15retypes(m, add)
+	c15multi(m, rng, thorough, add)
+	nsub := 60
+	if thorough {
+		nsub = len(m)
+	}
+	for k := 0; k < nsub; k++ { // single bytes anywhere (the stamps included)
+		i := rng.Intn(len(m))
+		d := append([]byte(nil), m...)
+		nb := byte(rng.Intn(256))
+		if k%2 == 0 {
+			nb = d[i] ^ (1 << uint(rng.Intn(8)))
+		}
+		if nb == d[i] {
+			nb ^= 1
+		}
+		d[i] = nb
+		add("substitute", fmt.Sprintf("%d:%02x", i, nb), d)
+	}
+	return cs
+}
+
+// c15menu: a compact menu of load-failing and benign corruptions (project "multi": one per schedule and victim).
+func c15menu(rec []byte, rng *rand.Rand) []c15corruption {
+	var info targetInfo
+	if err := json.Unmarshal(rec, &info); err != nil {
+		panic(err)
+	}
+	var cs []c15corruption
+	add := func(kind, detail string, data []byte) {
+		cs = append(cs, c15corruption{"mp-" + kind, detail, append([]byte(nil), data...)})
+	}
+	withStamp := func(s string) []byte {
+		i := info
+		i.Data = s
+		b, _ := json.Marshal(i)
+		return append(b, '\n')
+	}
+	add("none", "uncorrupted", rec)
+	add("none", "marked", c15marked(rec))
+	add("truncate", strconv.Itoa(len(rec)/2), rec[:len(rec)/2])
+	k := 1 + rng.Intn(len(rec)-1)
+	add("truncate", strconv.Itoa(k), rec[:k])
+	add("truncate", "0", nil)
+	add("replace-record", "zeros", []byte("\x00\x00\x00"))
+	add("replace-record", "array", []byte("[]\n"))
+	var fields map[string]json.RawMessage
+	json.Unmarshal(c15marked(rec), &fields)
+	fields["rerun"] = json.RawMessage(`"ru"`)
+	add("retype", "marked,rerun=\"ru\"", c15build(fields))
+	json.Unmarshal(rec, &fields)
+	fields["stamp"] = json.RawMessage(`5`)
+	add("retype", "stamp=5", c15build(fields))
+	add("stamp", "not-base64", withStamp("!!!!"))
+	add("stamp", "base64-garbage", withStamp(base64.StdEncoding.EncodeToString([]byte("garbage that is not a pickle"))))
+	add("stamp", "truncated-b64", withStamp(info.Data[:len(info.Data)/2]))
+	add("stamp", "global", withStamp(base64.StdEncoding.EncodeToString([]byte("\x8c\x01a\x8c\x01b\x93."))))
+	add("stamp", "int", withStamp(c15encodeStamp(starlark.MakeInt(42))))
+	if len(info.Data) > 8 {
+		i := rng.Intn(len(info.Data))
+		c := c15badChars[rng.Intn(len(c15badChars))]
+		if c != info.Data[i] {
+			add("stamp-b64", fmt.Sprintf("%d:%02x", i, c), withStamp(c15damage(info.Data, i, c)))
+		}
+	}
+	st := c15structural(rec)
+	i := st[rng.Intn(len(st))]
+	add("structure", fmt.Sprintf("delete:%d", i), append(append([]byte(nil), rec[:i]...), rec[i+1:]...))
+	return cs
+}
+
 // family "classic": everything but the damaged base64 characters; "b64": only those.
 func c15corruptions(rec []byte, rng *rand.Rand, thorough bool, family string) []c15corruption {
 	var cs []c15corruption
@@ -254,6 +724,9 @@ func c15corruptions(rec []byte, rng *rand.Rand, thorough bool, family string) []
 			cs = append(cs, c15corruption{kind, detail, append([]byte(nil), data...)})
 		}
 	}
+	c15structure(rec, rng, thorough, add)
+	c15retypes(rec, add)
+	c15multi(rec, rng, thorough, add)
 	// truncation at every offset (quick: every offset below 48, then every third)
 	for i := 0; i < len(rec); i++ {
 		if thorough || i < 48 || i%3 == 0 {
@@ -419,11 +892,21 @@ func TestVerifC15Record(t *testing.T) {
 		os.WriteFile(filepath.Join(dir, "BUILD.dawn"), []byte(buildFile), 0o644)
 	}
 
-	runChild := func(dir string) (status string, events map[string][]string) {
+	mkmulti := func(dir string) {
+		os.MkdirAll(dir, 0o755)
+		os.WriteFile(filepath.Join(dir, "dawn.toml"), nil, 0o644)
+		for rel, text := range c15MultiFiles {
+			p := filepath.Join(dir, filepath.FromSlash(rel))
+			os.MkdirAll(filepath.Dir(p), 0o755)
+			os.WriteFile(p, []byte(text), 0o644)
+		}
+	}
+
+	runChildSched := func(dir, sched string) (status string, events map[string][]string) {
 		ctx, cancel := context.WithTimeout(context.Background(), 30*time.Second)
 		defer cancel()
 		cmd := exec.CommandContext(ctx, os.Args[0], "-test.run=^TestVerifC15RecordChild$", "-test.count=1")
-		cmd.Env = append(os.Environ(), "VERIF_C15_CHILD_DIR="+dir, "VERIF_OUT=")
+		cmd.Env = append(os.Environ(), "VERIF_C15_CHILD_DIR="+dir, "VERIF_OUT=", "VERIF_C15_SCHED="+sched)
 		out, _ := cmd.CombinedOutput()
 		events = map[string][]string{}
 		status = "died"
@@ -437,6 +920,8 @@ func TestVerifC15Record(t *testing.T) {
 					status = f[2]
 				} else if f[1] == "MEMORY" {
 					events["!memory"] = []string{f[2]}
+				} else if f[1] == "SCHED" {
+					events["!sched"] = append(events["!sched"], f[2])
 				} else {
 					events[f[2]] = append(events[f[2]], f[1])
 				}
@@ -444,33 +929,76 @@ func TestVerifC15Record(t *testing.T) {
 		}
 		return
 	}
+	runChild := func(dir string) (string, map[string][]string) { return runChildSched(dir, "") }
 
 	// the pristine builds: the plain project (every family but the damaged base64 characters) and the rich one
 	projects := []struct{ name, prefix, buildFile, family, pristine string }{
 		{"plain", "", c15BuildFile, "classic", ""},
 		{"rich", "rich/", c15RichBuildFile, "b64", ""},
+		{"multi", "multi/", "", "menu", ""},
 	}
 	type job struct {
 		proj      int
 		file, lbl string
 		c         c15corruption
 		trueRec   []byte
+		sched     string
 	}
 	var jobs []job
 	for pi := range projects {
 		pr := &projects[pi]
 		p0 := filepath.Join(base, "p0-"+pr.name)
-		mkproj(p0, pr.buildFile)
+		if pr.family == "menu" {
+			mkmulti(p0)
+		} else {
+			mkproj(p0, pr.buildFile)
+		}
 		if st, _ := runChild(p0); st != "ok" {
 			t.Fatalf("initial build (%s): %s", pr.name, st)
 		}
 		st, evs := runChild(p0)
-		if st != "ok" || fmt.Sprint(evs["//:b"]) != "[TargetUpToDate]" || fmt.Sprint(evs["//:top"]) != "[TargetUpToDate]" {
+		if st != "ok" || (pr.family != "menu" && fmt.Sprint(evs["//:b"]) != "[TargetUpToDate]") || fmt.Sprint(evs["//:top"]) != "[TargetUpToDate]" {
 			t.Fatalf("second build (%s) not up to date: %s %v", pr.name, st, evs)
 		}
 		pr.pristine = filepath.Join(base, "pristine-"+pr.name)
 		if err := c15copyTree(filepath.Join(p0, ".dawn"), pr.pristine); err != nil {
 			t.Fatal(err)
+		}
+		if pr.family == "menu" {
+			// one victim per package x the three schedules x the menu
+			nmod := 0
+			for rel := range c15MultiFiles {
+				if strings.HasSuffix(rel, "BUILD.dawn") {
+					nmod++
+				}
+			}
+			for _, tg := range []struct{ file, lbl, pkg string }{{"%2Fa", "//:a", "//"}, {"p1%2Ft1", "//p1:t1", "//p1"},
+				{"p1%2Fq%2Ft", "//p1/q:t", "//p1/q"}, {"p2%2Ft2", "//p2:t2", "//p2"}} {
+				rec, err := os.ReadFile(filepath.Join(pr.pristine, "build", "targets", tg.file))
+				if err != nil {
+					t.Fatal(err)
+				}
+				if fmt.Sprint(evs[tg.lbl]) != "[TargetUpToDate]" {
+					t.Fatalf("second build (%s) not up to date: %s %v", pr.name, tg.lbl, evs)
+				}
+				module := (&label.Label{Kind: "module", Package: tg.pkg, Name: "BUILD.dawn"}).String()
+				for _, mode := range []string{"", "first", "last"} {
+					sched := ""
+					if mode != "" {
+						sched = fmt.Sprintf("%s|%s|%d", mode, module, nmod)
+					}
+					rng := rand.New(rand.NewSource(seed + int64(len(jobs))))
+					for _, c := range c15menu(rec, rng) {
+						if mode == "" {
+							c.detail = "free:" + c.detail
+						} else {
+							c.detail = mode + ":" + c.detail
+						}
+						jobs = append(jobs, job{pi, tg.file, tg.lbl, c, rec, sched})
+					}
+				}
+			}
+			continue
 		}
 		for _, tg := range []struct{ file, lbl string }{{"%2Fb", "//:b"}, {"%2Ftop", "//:top"}, {"%2Fdefault", "//:default"}} {
 			rec, err := os.ReadFile(filepath.Join(pr.pristine, "build", "targets", tg.file))
@@ -479,7 +1007,12 @@ func TestVerifC15Record(t *testing.T) {
 			}
 			rng := rand.New(rand.NewSource(seed + int64(len(jobs))))
 			for _, c := range c15corruptions(rec, rng, thorough, pr.family) {
-				jobs = append(jobs, job{pi, tg.file, tg.lbl, c, rec})
+				jobs = append(jobs, job{pi, tg.file, tg.lbl, c, rec, ""})
+			}
+			if pr.family == "classic" {
+				for _, c := range c15markedCorruptions(rec, rng, thorough) {
+					jobs = append(jobs, job{pi, tg.file, tg.lbl, c, rec, ""})
+				}
 			}
 		}
 	}
@@ -547,7 +1080,11 @@ func TestVerifC15Record(t *testing.T) {
 		var dirs []string
 		for _, pr := range projects {
 			dirs = append(dirs, filepath.Join(base, fmt.Sprintf("w%d-%s", k, pr.name)))
-			mkproj(dirs[len(dirs)-1], pr.buildFile)
+			if pr.family == "menu" {
+				mkmulti(dirs[len(dirs)-1])
+			} else {
+				mkproj(dirs[len(dirs)-1], pr.buildFile)
+			}
 		}
 		wg.Add(1)
 		go func() {
@@ -567,7 +1104,7 @@ func TestVerifC15Record(t *testing.T) {
 				if err := os.WriteFile(filepath.Join(dir, ".dawn", "build", "targets", j.file), j.c.data, 0o644); err != nil {
 					panic(err)
 				}
-				status, events := runChild(dir)
+				status, events := runChildSched(dir, j.sched)
 				class := ""
 				switch status {
 				case "died", "hang":
@@ -602,13 +1139,33 @@ func TestVerifC15Record(t *testing.T) {
 				if m := events["!memory"]; class == "died" && len(m) > 0 {
 					why = "(runaway allocation: " + m[0] + ")"
 				}
+				if j.sched != "" {
+					why = "schedule " + j.sched
+					if m := events["!sched"]; len(m) > 0 {
+						why += " (not enforced: " + strings.Join(m, ", ") + ")"
+					}
+				}
 				if class == "uptodate" {
 					same, w := c15sameRecord(j.trueRec, j.c.data)
 					if same {
 						class = "uptodate-same-record"
+						if strings.HasPrefix(j.c.kind, "marked-") || strings.Contains(j.c.detail, "marked") {
+							// the state before the corruption demanded a re-run; the corrupted bytes still decode to a
+							// record that does not: either they are exactly such a record, or they are one only to a
+							// decoder that ignores unknown keys and whatever follows the first JSON value
+							class = "uptodate-valid-unmarked-record"
+							if lax := c15laxOnly(j.c.data); lax != "" {
+								class = "uptodate-marker-lost-" + lax
+							}
+						}
 					} else {
 						class, why = "uptodate-different-record", w
 					}
+				}
+				if m := events["!sched"]; len(m) > 0 {
+					mu.Lock()
+					fmt.Fprintf(w, "record\t%s\tmp-schedule\t%s\tnot-enforced\n", prefix+j.file, j.c.detail)
+					mu.Unlock()
 				}
 				mu.Lock()
 				fmt.Fprintf(w, "record\t%s\t%s\t%s\t%s\n", prefix+j.file, j.c.kind, j.c.detail, class)
